@@ -87,6 +87,9 @@ type checkCtx struct {
 	extraSamples []interface{}
 	extraSolverS float64
 	validated int
+	violTotal int
+	expected map[string]bool
+	reached map[string]int
 	confirmed int
 }
 
@@ -164,7 +167,7 @@ func runCheck(id, tier string) int {
 		writeEvidence(&checkCtx{prop: prop, tier: tier, seed: seed, incon: []string{err.Error()}}, time.Since(t0), 2)
 		return 2
 	}
-	c := &checkCtx{prop: prop, tier: tier, seed: seed, prog: prog, known: loadKnown(), knownHit: map[string][]eng.Violation{}}
+	c := &checkCtx{prop: prop, tier: tier, seed: seed, prog: prog, known: loadKnown(), knownHit: map[string][]eng.Violation{}, expected: map[string]bool{}, reached: map[string]int{}}
 	activeKnown := map[string]knownFinding{}
 	for _, k := range c.known {
 		if k.Property == id && k.Status == "known" {
@@ -224,15 +227,17 @@ func runCheck(id, tier string) int {
 		// vacuity: every assert site of the harness must have been reached on a feasible path
 		exp := map[string]bool{}
 		expectedAsserts(prog, fn, map[*ssa.Function]bool{}, exp)
-		var missing []string
 		for m := range exp {
-			if ex.AssertsReached[m] == 0 {
-				missing = append(missing, m)
-			}
+			c.expected[m] = true
 		}
-		sort.Strings(missing)
-		if len(missing) > 0 && len(ex.Violations) == 0 && len(ex.Inconclusive) == 0 {
-			rep.Inconclusive = append(rep.Inconclusive, "vacuity: assert sites never reached on a feasible path: "+strings.Join(missing, " | "))
+		for m, n := range ex.AssertsReached {
+			c.reached[m] += n
+		}
+		if ex.Paths-ex.PathsAssumeEnd == 0 && len(ex.Inconclusive) == 0 {
+			rep.Inconclusive = append(rep.Inconclusive, "vacuity: no feasible path reached the end of harness "+r.Harness)
+		}
+		if ex.FallbackQueries > 0 {
+			c.notes = append(c.notes, fmt.Sprintf("%s: %d assertion queries went to the fallback solver (cvc5), %d decided there", r.Harness, ex.FallbackQueries, ex.FallbackDecided))
 		}
 		if ex.QUnknown > 0 && ex.UnknownFeas > 0 {
 			c.notes = append(c.notes, fmt.Sprintf("%s: %d feasibility queries answered unknown (paths kept)", r.Harness, ex.UnknownFeas))
@@ -254,6 +259,17 @@ func runCheck(id, tier string) int {
 		}
 		c.reports = append(c.reports, rep)
 	}
+	// vacuity (reachability twins): every assert site of the property's harnesses must be reached on a feasible path of some run
+	var missing []string
+	for m := range c.expected {
+		if c.reached[m] == 0 {
+			missing = append(missing, m)
+		}
+	}
+	sort.Strings(missing)
+	if len(missing) > 0 && len(c.viol) == 0 && len(c.incon) == 0 {
+		c.incon = append(c.incon, "vacuity: assert sites never reached on a feasible path: "+strings.Join(missing, " | "))
+	}
 	if prop.Post != nil {
 		prop.Post(c)
 	}
@@ -266,6 +282,21 @@ func finish(c *checkCtx, activeKnown map[string]knownFinding, t0 time.Time) int 
 	var lines []string
 	// 1. replay violations
 	confirmed := 0
+	{
+		// one representative per (harness, assertion); at most 6 are replayed and reported
+		seen := map[string]bool{}
+		var uniq []eng.Violation
+		for _, v := range c.viol {
+			k := v.Harness + "|" + v.Kind + "|" + v.Msg
+			if seen[k] || len(uniq) >= 6 {
+				continue
+			}
+			seen[k] = true
+			uniq = append(uniq, v)
+		}
+		c.violTotal = len(c.viol)
+		c.viol = uniq
+	}
 	if len(c.viol) > 0 {
 		var cases []eng.ReplayCase
 		for _, v := range c.viol {
@@ -493,6 +524,7 @@ func writeEvidence(c *checkCtx, wall time.Duration, exit int) {
 		"confirmed_violations": c.confirmed,
 		"inconclusive": c.incon,
 		"exit": exit,
+		"assert_sites_reached_over_all_runs": c.reached,
 	}
 	ev := map[string]interface{}{
 		"property_id": c.prop.ID,
